@@ -1540,6 +1540,8 @@ class Engine:
                     return [(s, NORMAL, Unknown('slice'))]
                 if has_sym(vs[1:]):
                     raise Unsupported('symbolic slice bounds')
+                if hasattr(vs[0], 'sliced'):
+                    return [(s, NORMAL, vs[0].sliced(slice(*vs[1:])))]
                 if is_mp_object(vs[0]):
                     gi = self.find_class_attr(type(vs[0]), '__getitem__')
                     if gi is not _MISSING and is_mp_function(gi):
